@@ -662,6 +662,32 @@ def data_(rc):
     _sh.preprocess_rule(rc)
 
 
+@rule("C12.variables", "with data the estimator's variables are the data's columns: the base initialiser runs after (and overrides) the variables taken from the independence list", floor=2)
+def variables_(rc):
+    """StructureEstimator.__init__ takes `variables` from the independence list and then calls BaseEstimator.__init__, which re-assigns `self.variables` only when
+    data is given.  In that order data wins; in the reverse order a variable that occurs in no assertion (a collider's child, any node of a complete DAG) is dropped
+    from the search although it is a column of the data."""
+    repo = rc.repo
+    f = repo.func("pgmpy/estimators/base.py", "StructureEstimator.__init__")
+    b = repo.func("pgmpy/estimators/base.py", "BaseEstimator.__init__")
+    sup = [st for st in f.body if any(isinstance(c, ast.Call) and isinstance(c.func, ast.Attribute) and c.func.attr == "__init__" and isinstance(c.func.value, ast.Call) and call_name(c.func.value) == "super"
+                                      for c in ast.walk(st))]
+    asg = [st for st in ast.walk(f.node) if isinstance(st, ast.Assign) and norm(st.targets[0]) == "self.variables"]
+    if not sup or not asg:
+        raise AnalysisError("StructureEstimator.__init__: base initialiser / variables assignment not found")
+    base_sets = [s_ for s_ in sites(b.node, lambda n: isinstance(n, ast.Assign) and norm(n.targets[0]) == "self.variables")]
+    cond = [[(norm(t), pol) for t, pol in s_.conds] for s_ in base_sets]
+    rc.ob(f"BaseEstimator.__init__ assigns self.variables under {cond}")
+    if not base_sets or not all(any("data is not None" in t and pol or "data is None" in t and not pol for t, pol in c) for c in cond):
+        raise AnalysisError("BaseEstimator.__init__: `self.variables` is not assigned exactly when data is given — premise of the ordering rule changed")
+    before = all(a_.lineno < sup[0].lineno for a_ in asg)
+    rc.ob(f"StructureEstimator.__init__: variables from the independence list are assigned before the base initialiser: {before}")
+    if not before:
+        rc.fail(f, asg[0], "StructureEstimator.__init__ assigns the independence list's variables AFTER the base initialiser: with both data and independencies given, a data "
+                "column that occurs in no assertion is dropped from the search", construct="variables from independencies override the data's")
+
+
+
 MUTANTS = [
     dict(kind="break", name="oracle-literal-membership-only", file="pgmpy/estimators/CITests.py", expect="C12.oracle",
          old="    if IndependenceAssertion(X, Y, Z) in independencies:\n        return True\n", new="    return IndependenceAssertion(X, Y, Z) in independencies\n"),
